@@ -86,8 +86,10 @@ def jobs(tier):
         for kind in F.KINDS:
             tree = kind in F.TREE_KINDS
             js.append({'fn': 'jar_job', 'weight': 30 if tree else 3, 'group': kind + '/jar', 'flavour': 'asan',
-                       'args': dict(fam=fam, kind=kind, sizes=(2, 2) if tree else None,
-                                    n=(5 if tier == 'quick' else 6) if tree else 4)})
+                       'args': dict(fam=fam, kind=kind, sizes=(2, 2) if tree else None, n=5 if tree else 4)})
+            if tier != 'quick' and tree and fam == 'II':
+                js.append({'fn': 'jar_job', 'weight': 300, 'group': kind + '/jar', 'flavour': 'asan',
+                           'args': dict(fam=fam, kind=kind, sizes=(2, 2), n=6)})
     for fam in F.FAMILIES:
         if F.has_multiunion(fam):
             js.append({'fn': 'multiunion_job', 'weight': 3, 'group': 'multiunion', 'flavour': 'asan',
